@@ -108,3 +108,26 @@ func HMacReceiverForeignOrder() {
 	}
 	vr.Assert("c15.foreign.receiver-arg", vr.EqBytes(mac2, mac))
 }
+
+// HMacReceiverReuse (C15): the receiver decodes two packets in a row into the same EAP value (a
+// long-lived receive object) and computes the code of the second: it must be the code over the second
+// packet as transmitted, whatever the first one contained.  Params: first mask, second mask, key length.
+func HMacReceiverReuse() {
+	m1, m2, kl := vr.Param(0), vr.Param(1), vr.Param(2)
+	key := vr.Bytes(kl)
+	e1 := VGenEAP(50, m1|8, -1)
+	w1, err := e1.Marshal()
+	vr.Assert("c15.reuse.marshal1", err == nil)
+	e2 := VGenEAP(50, m2|8, -1)
+	w0 := vSpecMacInput(e2)
+	w2, err := e2.Marshal()
+	vr.Assert("c15.reuse.marshal2", err == nil)
+	d := new(EAP)
+	vr.Assert("c15.reuse.unmarshal1", d.Unmarshal(w1) == nil)
+	vr.Assert("c15.reuse.unmarshal2", d.Unmarshal(w2) == nil)
+	mac, err := d.CalcEapAkaPrimeAtMAC(append([]byte{}, key...))
+	vr.Assert("c15.reuse.noerr", err == nil)
+	if err == nil {
+		vr.Assert("c15.reuse.receiver-arg", vr.EqBytes(mac, vr.HMAC("sha256", key, w0)[:16]))
+	}
+}
